@@ -61,6 +61,17 @@ def int_round(q: Fraction, rm: str, s: bool) -> int:
 
 
 def run(ck):
+    # tie A: the model of the integer core is regenerated from the source and the bridge lemmas re-proved
+    # (coqc runs in the background while the correspondence streams run)
+    from .. import py2v_tie
+    tie_join = py2v_tie.start(ck)
+    try:
+        _run(ck)
+    finally:
+        tie_join()
+
+
+def _run(ck):
     from fpy2.number import Float, RealFloat
     from fpy2.number import RM as FRM
     thorough = ck.tier == 'thorough'
